@@ -1,7 +1,25 @@
 """Property -> rules registry."""
 import engine_tab as tab
+import engine_tab2 as tab2
 
 PROPS = {
+    "C12": {
+        "rules": [("TAB-4", tab2.tab4)],
+        "explanation": "Decides the group-letter clause of C12 only: the letter -> matrix table of Parser::group_to_matrix equals its "
+                       "sibling in AliasParser and the table in doc/doc.md § Groupings (feature names resolved through the lexer's own synonym table).",
+        "does_not_decide": "condensed rules, `_,X`, optionals and `&` expansions (equalities between two interpreter runs).",
+        "assumptions": ["doc/doc.md keeps its `X -> ... (equiv. to [..])` row layout"],
+    },
+    "C13": {
+        "rules": [("TAB-5", tab2.tab5), ("TAB-6", tab2.tab6), ("SYN-1", tab2.syn1)],
+        "explanation": "Decides the table and follow-set clauses of C13: the feature-name synonym tables of the two lexers are equal maps, without "
+                       "duplicate or unreachable spellings and covering FEAT_VARIANTS; word-level respellings (Word::to_ipa, Word::new replace chains, "
+                       "lexer cur_as_ipa siblings, americanist inverse in render_normal, render marks ⊆ Word::setup tests) equal the manual's tables; "
+                       "every documented symbol synonym either lexes to one token kind or its kinds are tested equally often in every parser function "
+                       "(Pipe≍DubSlash, Star≍EmptySet, Arrow≍GreaterThan, Eol≍Comment at follow-set positions).",
+        "does_not_decide": "spaces inside matrices, alpha-letter / variable-number renaming, doubled segment ≍ length mark (semantic).",
+        "assumptions": ["doc/doc.md keeps its '### Inbuilt Aliases' code blocks", "a helper that tests both members of a pair satisfies SYN-1 by itself"],
+    },
     "C04": {
         "rules": [("TAB-1", tab.tab1), ("TAB-2", tab.tab2)],
         "explanation": "Decides the table clauses of C04 only: the hand-maintained index tables (FType/NodeType/NodeKind "
